@@ -207,6 +207,22 @@ func genC07(c *Ctx) {
 	} else {
 		check("fresh server instance", fresh.s, shuffled())
 	}
+	// cache-loaded instance: one instance scans and writes the representation metadata, the next one starts from it
+	if cdir, err := os.MkdirTemp(workDir(), "c07cache"); err == nil {
+		w := startServer(vodRoot(), cdir, true)
+		if w.err != nil {
+			c.Violate("start", "cache-writing server: "+w.err.Error(), []string{"# start"}, nil)
+		} else {
+			check("cache-writing server instance", w.s, shuffled())
+			cl := startServer(vodRoot(), cdir, false)
+			if cl.err != nil {
+				c.Violate("start", "cache-loaded server: "+cl.err.Error(), []string{"# start"}, nil)
+			} else {
+				check("cache-loaded server instance", cl.s, shuffled())
+			}
+		}
+		_ = os.RemoveAll(cdir)
+	}
 	// concurrently on the long-running server, with ingest sessions running
 	var wg sync.WaitGroup
 	var mu sync.Mutex
